@@ -12,7 +12,7 @@ import tempfile
 import c03_lock_ast as T
 
 LOCKED = ["MSetItem", "MGetItem", "MGet", "MDelItem", "MPop", "MPopItem", "MClear", "MSetDefault",
-          "MUpdate", "MIor", "MEq", "MCopy", "MLen", "MContains", "MOr", "MRor", "MRepr"]
+          "MUpdate", "MIor", "MEq", "MCopy", "MLen", "MContains", "MOr", "MRor", "MRepr", "MNe", "MCopy2"]
 
 
 def covered(ctor, methods):
@@ -23,7 +23,7 @@ def covered(ctor, methods):
     for cls in ("LRI", "LRU"):
         for m in LOCKED:
             s = st.get((cls, m)) if (cls, m) in st else (st.get(("LRI", m)) if cls == "LRU" else None)
-            if s == "Whole" or (s == "Single" and m == "MGet"):
+            if s == "Whole" or (s == "Single" and m in ("MGet", "MNe")):
                 continue
             return False
     return True
@@ -50,7 +50,8 @@ def perturbations(src):
                          ("contains", "    def __contains__(self, key):"), ("copy", "    def copy(self):"),
                          ("setdefault", "    def setdefault(self, key, default=None):"),
                          ("update", "    def update(self, E, **F):"), ("eq", "    def __eq__(self, other):"),
-                         ("or", "    def __or__(self, other):"), ("repr", "    def __repr__(self):")]:
+                         ("or", "    def __or__(self, other):"), ("repr", "    def __repr__(self):"),
+                         ("__copy__", "    def __copy__(self):")]:
         ps.append(("no lock in " + name, lambda s, h=header: _dedent_with(s, h)))
     ps.append(("no lock in LRU.__getitem__", lambda s: _dedent_with(s, "    def __getitem__(self, key):", "class LRU(LRI):")))
     ps.append(("plain Lock", lambda s: s.replace("from threading import RLock", "from threading import Lock as RLock")))
